@@ -16,7 +16,7 @@ CHECKS = {
         tech="exhaustive enumeration of a bounded input box executed on the implementation, oracle = Python list semantics",
         ref="DESIGN.md 2/C03"),
     "C10": dict(
-        text="bundle definition trees enumerated exhaustively inside stated families - flat bundles with 1..3 leaves over every assignment of 7 leaf kinds; chains of depth 2 and 3 over leaf kind x flip spelling (none / constructor flag / flipped()) x role per level; fan-out trees with 2..3 sub-bundles - each as a port and as an internal instance with every flip and role of the instance; exported ports (name, width, direction) and internal signals compared with a 20-line reference flattener",
+        text="bundle definition trees enumerated exhaustively inside stated families - flat bundles with 1..3 leaves over every assignment of 9 leaf kinds; chains of depth 2 and 3 over leaf kind x flip spelling (none / constructor flag / flipped()) x role per level; fan-out trees with 2..3 sub-bundles - each as a port and as an internal instance with every flip and role of the instance; exported ports (name, width, direction) and internal signals compared with a 20-line reference flattener",
         note="a role-carrying leaf takes its direction from the immediately enclosing bundle instance; quick tier takes every 4th depth-3 chain and every 3rd fan tree (cap reported); the connection half is decided by C01/F4 and C05",
         tech="exhaustive enumeration of a bounded input family executed on the implementation, oracle = reference flattener",
         ref="DESIGN.md 2/C10"),
@@ -71,7 +71,7 @@ CHECKS = {
         tech="exhaustive fault-point x continuation enumeration on the implementation (fault injection through public extension points and planted design faults), differential oracle against fresh builds",
         ref="DESIGN.md 2/C08"),
     "C09": dict(
-        text="for ten parameter-class shapes (incl. Optional[str] and set-valued fields), all ordered pairs of an adversarial value set x three call forms (keywords, instance, handed on through a second generator) are executed on the real generator machinery in a fresh cache: identity, body-run counts, package names and netlist sub-circuit names are compared; all permutations of up to four calls are replayed for name stability; three fresh processes with different hash seeds must agree",
+        text="for eleven parameter-class shapes (incl. Optional[str] and set-valued fields), all ordered pairs of an adversarial value set x three call forms (keywords, instance, handed on through a second generator) are executed on the real generator machinery in a fresh cache: identity, body-run counts, package names and netlist sub-circuit names are compared; all permutations of up to four calls are replayed for name stability; three fresh processes with different hash seeds must agree",
         note="parameter-class equality decides which calls must share a Module; two same-named Modules as parameter values and unhashable dict-parameter calls are excluded as grey",
         tech="exhaustive enumeration of value pairs and of call-order permutations (operation histories) executed on the implementation, differential oracle across histories and processes",
         ref="DESIGN.md 2/C09"),
